@@ -23,13 +23,17 @@ CHECKS = {
         design="DESIGN.md §6 C01"),
     "C02": dict(
         technique="Lean 4 proof (macro layout bijections, facet maps, complete reference-geometry tables by decide) + regenerated tables + independent facet oracle",
-        text=("facet_map_vertices/affine, refgeom_tables, refgeom_access, entity_by_restriction, macro_layout are proved (finite tables completely, layouts for any sizes); "
-              "Generated/RefCells.lean is regenerated from /repo on every run; C kernels are compared with a NumPy+Basix oracle for EVERY local entity of every cell type."),
+        text=("facet_map_vertices/affine, refgeom_tables, refgeom_nonvacuous, refgeom_access_partial (+ refgeom_access_counterexample in FfcxProofs.C02Known: the known finding), entity_table_read "
+              "(what a kernel reads from a table is the basis function at the reference-entity map of the indicated local entity, at the point permuted by the indicated code), entity_by_restriction, macro_layout are proved "
+              "(finite tables completely, layouts and table reads for any sizes); Generated/RefCells.lean is regenerated from /repo on every run; real table arrays and the real table_access subscripts are compared value by value with the model; "
+              "C kernels are compared with a NumPy+Basix oracle for every local entity of every cell type (affine and non-affine facet geometry) and with the generic oracle on the facet forms of the shared corpus."),
         design="DESIGN.md §6 C02"),
     "C03": dict(
         technique="Lean 4 proof (facet permutation groups S2/S3/D4 for all points; flag_false_independent over the LNodes semantics) + numbering-invariance search",
-        text=("perm_group_*, perm_compose, aligned_invariance, table_access_spec, drop_perm_axis, flag_false_independent are proved; the generator obligation "
-              "(flag false ⇒ AST does not read quadrature_permutation) is checked on every interior-facet kernel; compiled kernels are run for all/sampled pairs of local numberings."),
+        text=("perm_group_*, perm_compose, vertex_aligned_iff, table_access_spec(_noperm), aligned_table_read, aligned_invariance_partial (over tableAccess ∘ buildTable: codes matched on the facet vertices give the same facet sum for both numberings; "
+              "remaining hypotheses: the facet symmetry and the element push-forward), facet_sum_change_of_variables, drop_perm_axis, flag_false_independent are proved; the generator obligation "
+              "(flag false ⇒ AST does not read quadrature_permutation) is checked on every interior-facet kernel (31 flagged true, 9 flagged false in the quick corpus); compiled kernels are run for ALL pairs of local numberings "
+              "(4/36/64/576/2304 for interval/triangle/quadrilateral/tetrahedron/hexahedron) in both tiers."),
         design="DESIGN.md §6 C03"),
     "C04": dict(
         technique="Lean 4 proof (expression tensor layout, descriptor model) + correspondence + differential oracle",
